@@ -342,7 +342,7 @@ class History:
         rec = self.ctx.rec
         kinds = ["iadd_incompatible", "iadd_other_dim", "iadd_nonhist", "iadd_array", "imul_negative", "imul_hist", "idiv_hist", "isub_more",
                  "fill_n_weight_shape", "fill_n_cols", "set_dtype_invalid", "set_dtype_lossy", "fill_bad_weight", "merge_bad_amount",
-                 "mul_array", "rdiv"]
+                 "mul_array", "rdiv", "array_after_free_block"]
         if h.ndim >= 2:
             kinds += ["projection_bad", "select_bad", "fill_wrong_dim"]
         else:
@@ -375,6 +375,22 @@ class History:
                     h += np.ones(h.shape)
                 elif k == "mul_array":
                     _ = h * np.ones(h.shape)
+                elif k == "array_after_free_block":
+                    # a block with free arithmetics that is left by an exception: afterwards the strict rules hold again
+                    from physt.config import config
+
+                    try:
+                        with config.enable_free_arithmetics():
+                            if rng.random() < 0.5:
+                                h *= h.copy()  # refused even inside the block
+                            else:
+                                h += np.ones(tuple(n + 1 for n in h.shape))  # wrong shape
+                    except Exception:
+                        pass
+                    if rng.random() < 0.5:
+                        h += np.ones(h.shape)
+                    else:
+                        h -= np.full(h.shape, 1e9)  # would make every content negative
                 elif k == "rdiv":
                     _ = 2 / h
                 elif k == "imul_negative":
